@@ -529,6 +529,8 @@ func recheck(h HuntHit) *HuntHit {
 	switch h.Class {
 	case "panic":
 		f = knownWitness(h.Site)
+	case "extreme":
+		f = recheckExtreme(h)
 	case "stale":
 		f = staleCheck(strings.TrimSuffix(h.Site, "(reused receiver)"), h.Kind, h.Order, h.K)
 	case "alias", "inplace", "inplace-vec":
@@ -647,6 +649,10 @@ func hunt(o Opts) {
 			}
 		}
 	}
+	// round 7: LogAdd far operands / +-Inf combinations, anchored exact-zero points (extreme.go)
+	eh, ec := extremeHunt()
+	hits = append(hits, eh...)
+	count += ec
 	// restarted registers: fresh vs reused receiver (streams.go)
 	npts = base
 	sh, sc := staleHunt()
